@@ -77,7 +77,8 @@ theorem C08_pb_injective (S : Schema) (D : List Val) (hwf : WF S D = true) (m : 
   rw [he, h2] at h1
   exact (Option.some.inj h1).symm
 
-/-- **Fixed point (partial).** Whatever conforming value a decode returns re-encodes to a fixed point: decoding the
+/-- SUPERSEDED by `C08_total_fixpoint` / `C08_total_fixpoint_root` (kept because theorems are never removed; it is still counted as
+an obligation but adds nothing). **Fixed point (partial).** Whatever conforming value a decode returns re-encodes to a fixed point: decoding the
 re-encoding returns the same value, and encoding that again the same bytes.  PARTIAL: that the decoder's result is
 canonical (`Conforms`, up to the `-0.0` of plain double fields) is checked on the implementation by the harness
 (`C08/total/not-a-fixpoint-*`) and on the model by the differential, not proved here.  Totality of the model decoder
@@ -167,7 +168,10 @@ theorem parseInt_dec (T : Txt) (h : DecLaws T) (signed : Bool) (w n : Nat)
   · next ds heq => exact absurd heq (h.dec_nosign n ds)
   · simp [h.undec_dec, hn]
 
-/-- **64-bit integers as strings or as numbers — same result** (`json.ReadInt64/ReadUint64`: the `NumberValue` and the
+/-- NOTE: holds by `rfl` — the model's `readLeaf` reads `.num t` and `.str t` through ONE branch, i.e. the clause is true by
+construction of the model; its content is that the model then agrees with the real readers on both spellings, which is what the
+`i64num` / `i64str` / tree-fuzz differential streams check, and `C08_json_readers_typed` pins the helper (`json.ReadInt64/ReadUint64`).
+**64-bit integers as strings or as numbers — same result** (`json.ReadInt64/ReadUint64`: the `NumberValue` and the
 `StringValue` branch), for every text. -/
 theorem C08_json_int64_variants (S : Schema) (T : Txt) (ty : Ty) (t : List Nat)
     (hty : ty = .u64 ∨ ty = .i64 ∨ ty = .fixed64 ∨ ty = .sfixed64) :
@@ -196,7 +200,8 @@ theorem C08_json_enum_names_ok :
     otlp.enums.all (fun en => en.values.all (fun p =>
       (en.values.find? (fun q => str q.1 == str p.1)).map (·.2) == some p.2 && decide (p.2 < 2 ^ 31))) = true := by decide +kernel
 
-/-- the full JSON statements; proved at field level above, at message level tied by the byte/value-exact differential
+/-- DEAD / SUPERSEDED definition (kept only because nothing is removed): the theorems `C08_json_roundtrip*`, `C08_consistent`,
+`C08_wrappers_*` below are the statements.  The full JSON statements; proved at field level above, at message level tied by the byte/value-exact differential
 (`jenc`/`jdec` ops) and the harness oracles (`C08/json/roundtrip/*`, `C08/json/pb-inconsistent/*`).  PARTIAL: the
 message-level induction for `fromJ ∘ toJ` (same shape as `rt_all`) is not written. -/
 def C08_json_roundtrip_full : Prop :=
@@ -599,7 +604,11 @@ field (`droppedLinksCount` into `DroppedEventsCount`), reads an enum with `ReadI
 theorem C08_json_readers_typed : readersOk otlp Gen.OtlpSchema.readers = true := by decide +kernel
 
 
-/-! ## bit-exact losslessness fails for `-0.0` in a plain proto3 double field (open finding, recorded — not a canonical-form footnote) -/
+/-! ## OBSERVATION about the bit-exact reading: `-0.0` in a plain proto3 double field comes back as `+0.0`
+
+Not a violation of the property: payload equality is Go's `==` / `reflect.DeepEqual`, under which `-0.0 == +0.0`, and proto3 does not
+serialise a zero default.  The canonical form `Conforms` identifies the two, exactly like `==`; the theorem below records precisely
+what that identification gives up. -/
 
 /-- index of `metrics.SummaryDataPoint_ValueAtQuantile` (two plain doubles: `quantile`, `value`) -/
 def quantileIdx : Nat := (otlp.msgs.findIdx? (fun m => m.name == "metrics.SummaryDataPoint_ValueAtQuantile")).getD 0
@@ -634,11 +643,12 @@ theorem negZero_encodes_empty : encode otlp quantileIdx negZeroQuantile = [] := 
   rw [h1, h2]; rfl
 
 set_option maxRecDepth 100000 in
-/-- **Kernel-checked witness**: the generated marshaler tests a plain double with `!= 0`, which is false for `-0.0`, so the field is
-not written and comes back as `+0.0` — `math.Signbit` is lost in `SummaryDataPoint.sum`, `ValueAtQuantile.quantile/value` and
-`ExponentialHistogramDataPoint.zero_threshold` (protobuf-go writes `-0.0`; gogo does not).  Numerically equal, bitwise not:
-recorded as open finding `C08/pb/roundtrip/negative-zero-dropped` (harness corpus case 4 replays it through the public API);
-all other theorems are stated for the canonical form `Conforms`, which excludes exactly this bit pattern in these fields. -/
+/-- **Observation (kernel-checked), not a finding**: under a BIT-EXACT reading of "equal" the round trip would fail — the generated
+marshaler tests a plain double with `!= 0`, which is false for `-0.0`, so the field is not written and comes back as `+0.0`
+(`SummaryDataPoint.sum`, `ValueAtQuantile.quantile/value`, `ExponentialHistogramDataPoint.zero_threshold`).  The property's
+equality is Go's `==`, which identifies the two zeros, so this is outside the statement; the harness counts it as
+`stat negative_zero_sign_lost` (corpus case 4) and raises nothing.  NaN is different: `==` does not identify NaNs, so the
+protobuf theorems and oracles compare NaN bit patterns exactly, and the JSON ones up to `normV` (both NaN). -/
 theorem C08_pb_bitwise_full_fails : ¬ C08_pb_bitwise_full := by
   intro h
   obtain ⟨f1, f2, hs, hc1, ht1, hc2, ht2⟩ := quantile_shape
@@ -650,6 +660,69 @@ theorem C08_pb_bitwise_full_fails : ¬ C08_pb_bitwise_full := by
   have hd : otlpD.getD quantileIdx .nil = .cons (.num 0) (.cons (.num 0) .nil) := by decide +kernel
   rw [hd] at this
   exact absurd (Option.some.inj this) (by decide)
+
+
+/-! ## which entry points migrate: the hand-written root tables are tied to the callers of `otlp.Migrate*` -/
+
+/-- the resource message of root `m` carries a deprecated field 1000 (otherwise `migrate` is the identity on it) -/
+def rootHasDep (S : Schema) (m : Nat) : Bool :=
+  match S.slots m with
+  | .one f :: _ => (match f.ty with | .msg r => (slotIdx (S.slots r) 1000).isSome | _ => false)
+  | _ => false
+
+set_option maxRecDepth 100000 in
+/-- `migratesPb` / `migratesJson` (Model) agree with the REGENERATED lists of decode entry points that call `otlp.Migrate*`
+(`ProtoUnmarshaler.Unmarshal*`, `JSONUnmarshaler.Unmarshal*`, `ExportRequest.UnmarshalProto/UnmarshalJSON`), on every root on which
+migration can do anything.  An entry point that forgets `Migrate*` (as `pmetricotlp` and the plain `ProtoUnmarshaler`s did) makes
+this fail statically. -/
+theorem C08_migrate_roots_tie : otlp.roots.all (fun rm => !rootHasDep otlp rm.2 ||
+    (migratesPb rm.1 == Gen.OtlpSchema.migratesPbRoots.contains rm.1 &&
+     migratesJson rm.1 == Gen.OtlpSchema.migratesJsonRoots.contains rm.1)) = true := by decide +kernel
+
+/-! ## non-vacuity on the OTLP schema itself: an `ApiBuilt` export response -/
+
+set_option maxRecDepth 100000 in
+/-- `ExportLogsServiceResponse{PartialSuccess{RejectedLogRecords: 3, ErrorMessage: "ok"}}` is `ApiBuilt` for the regenerated schema -/
+theorem C08_apibuilt_example : ∃ m, otlp.roots.lookup "logsresp" = some m ∧
+    ApiBuilt otlp m (.cons (.cons (.num 3) (.cons (.bytes [111, 107]) .nil)) .nil) := by
+  have h : (match otlp.roots.lookup "logsresp" with
+      | some m => (match otlp.slots m with
+        | [.one f] => f.card == .req && !isDep f && (match f.ty with
+          | .msg sub => (match otlp.slots sub with
+            | [.one a, .one b] => a.card == .opt && a.ty == .i64 && b.card == .opt && b.ty == .string && !isDep a && !isDep b
+            | _ => false)
+          | _ => false)
+        | _ => false)
+      | none => false) = true := by decide +kernel
+  split at h
+  · next m hm =>
+    refine ⟨m, hm, ?_⟩
+    split at h
+    · next f hs =>
+      simp only [Bool.and_eq_true, beq_iff_eq, Bool.not_eq_true'] at h
+      obtain ⟨⟨hcard, hdep⟩, h3⟩ := h
+      split at h3
+      · next sub hty =>
+        split at h3
+        · next a b hss =>
+          simp only [Bool.and_eq_true, beq_iff_eq, Bool.not_eq_true'] at h3
+          obtain ⟨⟨⟨⟨⟨hca, hta⟩, hcb⟩, htb⟩, hda⟩, hdb⟩ := h3
+          constructor
+          · rw [Conforms, hs, conf_slots_cons, conf_slots_nil_nil, conf_slot_one]
+            simp only [hcard, Bool.and_true]
+            rw [conf]; simp only [hty]
+            rw [hss, conf_slots_cons, conf_slots_cons, conf_slots_nil_nil, conf_slot_one, conf_slot_one]
+            simp [hca, hcb, hta, htb, leafOk, scalarOk]
+          · rw [hs, apiVal_slots_cons, apiVal_slot_one]
+            simp only [hcard, hdep, Bool.not_false, Bool.true_or, Bool.true_and]
+            rw [apiVal_elem_msg otlp f _ sub hty, hss, apiVal_slots_cons, apiVal_slots_cons, apiVal_slot_one, apiVal_slot_one]
+            simp only [hca, hcb, hda, hdb, Bool.not_false, Bool.true_or, Bool.true_and]
+            rw [apiVal.eq_def]
+            simp [hta, htb, apiVal]
+        · cases h3
+      · cases h3
+    · cases h
+  · cases h
 
 /-! ## non-vacuity: a small schema using every slot discipline, a conforming value with extreme numerics -/
 def S0 : Schema := { msgs := [
